@@ -409,8 +409,14 @@ func runC14(c *Ctx) {
 		}, 1) {
 			n++
 			fs := c.Fx.factsAtDeep(h)
+			isIdle := termOf(h.In.(ssa.CallInstruction).Common().Args[0]).lastField() == "Idle"
 			d, ok := hasFact(fs, func(f Fact) bool {
 				return f.T.contains(func(x *Term) bool {
+					if isIdle {
+						// a device enters / leaves the idle pool with its first / last sharer of ANY status: the deciding
+						// counter is the group's USED memory (allocated + releasing + pipelined), not a partial one
+						return x.Op == "lookup" && x.Args[0].lastField() == "UsedSharedGPUsMemory"
+					}
 					if x.Op == "lookup" && strings.HasSuffix(x.Args[0].lastField(), "SharedGPUsMemory") {
 						return true
 					}
@@ -422,7 +428,7 @@ func runC14(c *Ctx) {
 			})
 			cc := h.In.(ssa.CallInstruction)
 			c.Check(ok, "O10", "DOM", fmt.Sprintf("%s: %s.%s(1) is decided by the state of the GPU group", funcKey(fn), termOf(cc.Common().Args[0]).lastField(), calleeOf(cc).Name()), instrPos(h.In), trunc(d, 140),
-				"a whole GPU is moved in or out of the node's Idle/Releasing pool for a sharer without looking at its group (first / last sharer, releasing mark): it is applied once per sharer instead of once per device and is not undone by the removal")
+				"a whole GPU is moved in or out of the node's Idle/Releasing pool for a sharer without looking at its group's state (for Idle: the group's USED memory — first / last sharer of any status; for Releasing: its releasing counter or mark): a device is handed back while it still has sharers, or taken once per sharer")
 		}
 		c.Floor("O10", "DOM whole-GPU effects in "+name, n, 2)
 	}
